@@ -1,4 +1,4 @@
-import FastorModel.Proofs.Views
+import FastorModel.Proofs.ViewsRead
 /-
 # C04 — Reading through an index or a slice returns exactly the selected elements
 
@@ -14,7 +14,20 @@ specialised constructors; every evaluator returns the *parent offsets* it reads,
 
 * `Enc` is what a user writes on one axis; `Enc.Adm n` says when that is a documented range on an axis of
   extent `n`; `Enc.first/count/step` is its documented meaning.  Spellings outside `Enc.Adm` are not judged.
-* `rowMajor dims idx` is the offset of the element with multi-index `idx` (Horner form).
+* `rowMajor dims idx` is the offset of the element with multi-index `idx` (Horner form); `InRange dims idx`
+  says `idx` is a multi-index below `dims`.
+* `specOff pdims axs j` = `rowMajor pdims (first_k + j_k*step_k)_k`: the documented parent offset of
+  element `j` of the slice — this is the specification; `flatIdx`, `unflat`, `odoInc`, the routes and the
+  loops are the code.
+* `View.WF`: the view class matches the rank (what overload resolution of `operator()` guarantees).
+* consumer theorems use `WritesExactly ws D f` (Core/Writes.lean): the stores stay inside `D`, every
+  position of `D` is stored to, and the last store to `p ∈ D` is `f p` — here `f p` is the parent offset
+  whose element lands at result position `p`.
+
+Not in these theorems (tied by the correspondence runs only): the odometer constructors of rank >= 3
+(`odoLoop`; their per-step evaluators `teval_s` / `teval` are covered by `tevalS_correct`,
+`tevalV_row_routes`, `tevalV_gather_route`), the `iseq` loops, and that the real `SIMDVector` load / `set` / store
+are lane-wise (C08; here the symbolic runs use an ideal vector and the real types run against the oracle).
 -/
 namespace Fastor.C04
 open Fastor Fastor.Views
@@ -42,5 +55,96 @@ theorem norm_admissible (n : Nat) (e : Enc) (h : e.Adm n) (cls : Cls) (hc : cls 
 example : (Enc.idx (-2)).Adm 7 := by decide
 example : (Enc.range 1 8 3).Adm 9 := by decide
 example : (Enc.fromEnd 4 1 2).Adm 9 := by decide
+
+/-- `fix<i>` for `i < -1` is *not* an admissible spelling: `fix<-2>` = `fseq<-2,-1>` is read as
+    "both ends from the end" and selects the last element of a 7-element axis, not element 5
+    (the dynamic integer form was repaired in `seq(int)`; this one is outside `Enc.Adm` and is not judged) -/
+theorem fix_below_minus_one_counterexample : toPositive 7 ⟨-2, -1, 1⟩ = ⟨6, 7, 1⟩ := by decide
+
+/-- **scalar indexing, all ranks**: for indices in `[-d_k, d_k)` the offset computed by
+    `get_flat_index` (ranks 1–4 written out, rank >= 5 the products loop), with or without the bounds
+    assertion, is the row-major offset of the element with every negative index counted from the end -/
+theorem scalarIndex_correct (chk : Bool) (dims : List Nat) (args : List Int) (h : ValidArgs dims args) :
+    scalarIndex chk dims args = some ((rowMajor dims (List.zipWith wrapNat dims args) : Nat) : Int) :=
+  Views.scalarIndex_valid chk dims args h
+
+/-- with `FASTOR_BOUNDS_CHECK`, an out-of-range index raises the assertion and nothing is accessed -/
+theorem scalarIndex_checked (dims : List Nat) (args : List Int)
+    (h : inBounds dims (List.zipWith wrapIdx dims args) = false) : scalarIndex true dims args = none :=
+  Views.scalarIndex_checked_oob dims args h
+
+example : ValidArgs [3, 4, 5, 2, 6] [-1, 2, -5, 0, 5] := by simp [ValidArgs]
+example : scalarIndex true [3, 4] [-1, 4] = none := by decide
+
+/-- **read_correct, flat scalar route** (`eval_s(idx)`: 1-D stride form, 2-D div/mod form, n-D
+    `remaining` un-flatten loop + products sum): position `rowMajor dims j` of the evaluated slice is
+    `A(first_0 + j_0*step_0, …)`, for every view class, rank, extents and in-range `j` -/
+theorem read_correct (v : View) (hwf : v.WF) (j : List Nat) (hj : InRange (vdims v.axs) j) :
+    v.evalS (rowMajor (vdims v.axs) j) = specOff v.pdims v.axs j :=
+  Views.evalS_correct v hwf j hj
+
+example : (View.mk .dynN [3, 4, 9] [⟨1, 1, 2⟩, ⟨0, 2, 2⟩, ⟨0, 2, 4⟩]).WF ∧
+    InRange (vdims [⟨1, 1, 2⟩, ⟨0, 2, 2⟩, ⟨0, 2, 4⟩]) [1, 1, 3] := by simp [View.WF, InRange, vdims]
+
+/-- **flat vector route** (`eval(idx)`: strided `vector_setter(idx,step)` for 1-D views, per-lane
+    un-flatten + `vector_setter(inds)` otherwise): lane `l` is what `eval_s(idx+l)` reads, for every width -/
+theorem evalV_lanes (v : View) (hwf : v.WF) (V idx l : Nat) (hl : l < V) :
+    (v.evalV V idx)[l]? = some (v.evalS (idx + l)) :=
+  Views.evalV_lane v hwf V idx l hl
+
+/-- **two-index routes of the 2-D views**: `eval_s(i,j)` reads the documented element `(i,j)`;
+    lane `l` of `eval(i,j)` reads element `(i,j+l)` on both routes (one contiguous load when the last step
+    is 1, strided gather otherwise) -/
+theorem eval2_correct (cls : Cls) (h2 : is2D cls) (m n : Nat) (a0 a1 : Ax) (V i j l : Nat) (hl : l < V) :
+    (View.mk cls [m, n] [a0, a1]).eval2S i j = specOff [m, n] [a0, a1] [i, j] ∧
+    ((View.mk cls [m, n] [a0, a1]).eval2V V i j).2[l]? = some (specOff [m, n] [a0, a1] [i, j + l]) ∧
+    (((View.mk cls [m, n] [a0, a1]).eval2V V i j).1 = true ↔ a1.step = 1) := by
+  have h := Views.eval2V_lane cls h2 m n a0 a1 V i j l hl
+  refine ⟨Views.eval2S_correct cls h2 m n a0 a1 i j, ?_, h.2⟩
+  rw [h.1, Views.eval2S_correct cls h2 m n a0 a1 i (j + l)]
+
+/-- **`teval_s(as)`** reads the documented element `as` (all classes and ranks) -/
+theorem tevalS_correct (v : View) (hwf : v.WF) (as : List Nat) (hl : v.axs.length = as.length) :
+    v.tevalS as = specOff v.pdims v.axs as :=
+  Views.tevalS_correct v hwf as hl
+
+/-- **routes_agree (`teval`)**: on the contiguous-load route and on the strided-gather route lane `l`
+    reads the documented element `(as_0,…,as_last + l)` — the same element, whichever of the two routes the
+    last extent and step select -/
+theorem tevalV_row_routes (v : View) (hwf : v.WF) (V : Nat) (as : List Nat) (hl : v.axs.length = as.length)
+    (hne : as ≠ []) (l : Nat) (hlV : l < V) (hr : v.route V ≠ .gather) :
+    (v.tevalV V as)[l]? = some (specOff v.pdims v.axs (bumpLast as l)) :=
+  Views.tevalV_lane_row v hwf V as hl hne l hlV hr
+
+/-- the per-lane gather route of `teval` evaluates the `teval_s` index sum at the multi-index reached by
+    `l` unit odometer steps (`_partial`: that this multi-index is the one at row-major position
+    `rowMajor as + l` is checked by the correspondence runs, not proved) -/
+theorem tevalV_gather_route_partial (v : View) (V : Nat) (as : List Nat) (l : Nat) (hlV : l < V)
+    (hr : v.route V = .gather) :
+    (v.tevalV V as)[l]? = some (flatIdx (prods v.pdims) v.axs (odoIter (vdims v.axs) l as)) :=
+  Views.tevalV_lane_gather v V as l hlV hr
+
+/-- **consumer `trivial_assign`** (constructor of a tensor from a 1-D view; `+=`-family and flat
+    expressions for every view): for every size and width the stores cover exactly the positions below
+    `size()`, position `p` receiving what `eval_s(p)` reads — with `read_correct`, the documented element -/
+theorem trivial_assign_correct (v : View) (hwf : v.WF) (V : Nat) (hV : 0 < V) :
+    WritesExactly (v.trivialWrites V) (fun p => p < v.size) (fun p => v.evalS p) :=
+  Views.trivialWrites_exact v hwf V hV
+
+/-- **consumer: the two-index constructor loop** (2-D views and 2-D expressions containing them): for
+    all result extents `M × N` and widths the stores cover exactly the positions below `M*N`, position
+    `i*N + j` receiving the documented element `(i,j)` of the slice -/
+theorem ctor2_correct (cls : Cls) (h2 : is2D cls) (m n : Nat) (a0 a1 : Ax) (V M N : Nat) (hV : 0 < V)
+    (hN : 0 < N) :
+    WritesExactly ((View.mk cls [m, n] [a0, a1]).ctor2Writes V M N) (fun p => p < M * N)
+      (fun p => specOff [m, n] [a0, a1] [p / N, p % N]) := by
+  have h := Views.ctor2Writes_exact cls h2 m n a0 a1 V M N hV hN
+  intro p
+  have hp := h p
+  simp only [Views.eval2S_correct cls h2 m n a0 a1] at hp
+  exact hp
+
+example : applyWrites ((View.mk .dyn2 [5, 9] [⟨1, 2, 2⟩, ⟨2, 1, 5⟩]).ctor2Writes 4 2 5) (fun _ => 0) 7
+    = specOff [5, 9] [⟨1, 2, 2⟩, ⟨2, 1, 5⟩] [1, 2] := by decide
 
 end Fastor.C04
